@@ -588,7 +588,7 @@ func propConcurrent(t *rapid.T) {
 }
 
 func TestConcurrentStreams(t *testing.T) {
-	kit.Check(t, 300, 32000, propConcurrent)
+	kit.Check(t, 800, 32000, propConcurrent)
 }
 
 // FuzzStream: bytes -> one request sequence (thorough tier).
